@@ -61,3 +61,64 @@ class PopStackSort:
 
     invariants = {0: _inv}
     modifies = ()
+
+
+# ------------------------------------------------------------------ bubble sort
+# One pass of bubble sort (compare neighbours left to right, swap when out of order) carries the largest
+# entry seen so far to the right:  out[j] = min(max(s[0..j]), s[j+1])  for j < n-1,  out[n-1] = max(s).
+# Perm._bubble_sort is a recursion on the position of the maximum; proved equal to that pointwise description
+# for every list of distinct integers (partial correctness: the recursive call is used by its contract).
+def _pmax(c, s, j):
+    return s[c.prefix_argmax(s, j)]
+
+
+def _bub(c, s, j):
+    m = _pmax(c, s, j)
+    return c.ite(m > s[j + 1], s[j + 1], m)
+
+
+def _distinct(c, s):
+    n = c.len(s)
+    return c.forall2(0, n, lambda x, y: c.implies(x != y, lambda: s[x] != s[y]), pattern=(lambda x, y: (s[x], s[y])) if c.mode == "sym" else None)
+
+
+def _bubble_post(c, s, result):
+    n = c.len(s)
+    return c.and_(
+        c.len(result) == n,
+        c.implies(n >= 1, lambda: result[n - 1] == _pmax(c, s, n - 1)),
+        c.forall(0, n - 1, lambda j: result[j] == _bub(c, s, j), pattern=(lambda j: result[j]) if c.mode == "sym" else None),
+    )
+
+
+@contract("Perm._bubble_sort", params={"perm_slice": "IntList"}, returns="List", props=P)
+class BubbleSortInner:
+    def requires(c, perm_slice):
+        return _distinct(c, perm_slice)
+
+    def ensures(c, perm_slice, result):
+        return _bubble_post(c, perm_slice, result)
+
+    modifies = ()
+
+
+@contract("Perm.bubble_sort", params={"self": "Perm"}, returns="Perm", props=P)
+class BubbleSort:
+    def requires(c, self):
+        return c.is_perm(self)
+
+    def ensures(c, self, result):
+        return c.and_(_bubble_post(c, self, result), c.is_perm(result))
+
+    def ghost_inverse(c, self, result):
+        g = self.meta["ginv"]
+
+        def where(v):
+            # a left-to-right maximum is carried to just before the next larger entry (to the end if there is
+            # none); every other entry moves one step to the left
+            pos = g(c.int(v))
+            return c.ite(c.prefix_argmax(self, pos) == pos, c.next_greater(self, pos) - 1, pos - 1)
+
+        return where
+
+    modifies = ()
